@@ -852,11 +852,184 @@ def depth_guard_fns(F):
     return out
 
 
+def _field_of(e, adt_suffix):
+    """(adt, field) if `e` is a plain place ending in a field of an ADT whose path ends with adt_suffix."""
+    e = strip_refs(e)
+    if e[0] == "place" and e[2] and e[2][-1][0].endswith(adt_suffix):
+        return e[2][-1]
+    return None
+
+
+def counter_guard_fns(F):
+    """Depth counters: functions `fn enter(&mut self) -> Result` that test a usize field of Program against a constant,
+    return an error on the reached-the-limit arm and add 1 on the other.  The counter bounds the depth only if every
+    other write of that field, anywhere in the workspace, is a decrement or a reset to 0 and the field is never
+    mutably borrowed.  -> {guard fn path: (field, limit, {decrementing fn paths})}"""
+    from lib import bool_switch_true_target, exclusive_region, region_aggregates
+    cands = {}
+    for body in F.bodies.values():
+        if body.crate != "abasic_core" or not body.local_ty(0).startswith("core::result::Result<"):
+            continue
+        for b in sorted(body.reachable()):
+            t = body.term(b)
+            if t["k"] != "switch":
+                continue
+            e = strip_expr(body.expr(t["discr"]))
+            if e[0] != "binop" or e[1] not in ("Eq", "Ge", "Gt", "Lt", "Le", "Ne"):
+                continue
+            a, c = strip_expr(e[2]), strip_expr(e[3])
+            swapped = False
+            if a[0] == "const":
+                a, c, swapped = c, a, True
+            if c[0] != "const" or "int" not in c[1]:
+                continue
+            fld = _field_of(a, "program::Program")
+            if fld is None:
+                continue
+            op = e[1]
+            if swapped:
+                op = {"Lt": "Gt", "Gt": "Lt", "Le": "Ge", "Ge": "Le"}.get(op, op)
+            ft = bool_switch_true_target(body, b)
+            if ft is None:
+                continue
+            false_t, true_t = ft
+            val = c[1]["int"]
+            if op in ("Eq", "Ge"):
+                over, under, limit = true_t, false_t, val
+            elif op == "Gt":
+                over, under, limit = true_t, false_t, val + 1
+            elif op in ("Ne", "Lt"):
+                over, under, limit = false_t, true_t, val
+            else:
+                over, under, limit = false_t, true_t, val + 1
+            # over arm: an error is built and the increment is not reached; under arm: field = field + 1
+            oreg = exclusive_region(body, over)
+            if not any(a2[1] in ("StackOverflow", "Err") for a2 in region_aggregates(body, oreg)):
+                continue
+            incs = []
+            for (bb, i, pl, rv, sp) in body.assigns():
+                fs = [p for p in pl["proj"] if p["k"] == "field"]
+                if fs and fs[-1].get("name") == fld[1] and fs[-1].get("adt", "").endswith("program::Program"):
+                    incs.append((bb, rv))
+            ok = bool(incs)
+            for (bb, rv) in incs:
+                ex = strip_expr(body.rv_expr(rv))
+                # `x + 1` shows up as field 0 of the (usize, bool) AddWithOverflow pair
+                txt_ok = False
+                def has_add1(x, depth=0):
+                    if not isinstance(x, tuple) or depth > 6:
+                        return False
+                    if x[0] == "binop" and x[1] in ("Add", "AddWithOverflow"):
+                        l, r = strip_expr(x[2]), strip_expr(x[3])
+                        if _field_of(l, "program::Program") == fld and r[0] == "const" and r[1].get("int") == 1:
+                            return True
+                    return any(has_add1(y, depth + 1) for y in x[1:] if isinstance(y, tuple))
+                txt_ok = has_add1(ex)
+                if not (txt_ok and body.dominates(under, bb) and bb not in body.blocks_reachable_from(over)):
+                    ok = False
+            if ok:
+                cands[body.path] = (fld, limit)
+    out = {}
+    for g, (fld, limit) in cands.items():
+        dec = set()
+        sound = True
+        for body in F.bodies.values():
+            if body.path == g or body.path.endswith("as core::default::Default>::default"):
+                continue
+            for (bb, i, pl, rv, sp) in body.assigns():
+                fs = [p for p in pl["proj"] if p["k"] == "field"]
+                if fs and fs[-1].get("name") == fld[1] and fs[-1].get("adt", "").endswith("program::Program"):
+                    ex = strip_expr(body.rv_expr(rv))
+                    txt = show(ex)
+                    if _is_minus_one(ex, fld):
+                        dec.add(body.path)
+                        continue
+                    sound = False   # resets and larger steps let the counter fall behind the real depth
+                if rv["k"] == "ref" and rv.get("mut") and any(p["k"] == "field" and p.get("name") == fld[1] and
+                                                               p.get("adt", "").endswith("program::Program") for p in rv["place"]["proj"][-1:]):
+                    sound = False
+            for (b2, i2, pl2, rv2, sp2) in aggregates_of(body, "program::Program"):
+                names = rv2.get("fields", [])
+                if fld[1] in names:
+                    v = strip_expr(body.expr(rv2["ops"][names.index(fld[1])]))
+                    if not (v[0] == "const" and v[1].get("int") == 0):
+                        sound = False
+        # every give-back is paired: along every path of every caller the balance (successful enters minus leaves) never
+        # drops below zero, so the counter never falls behind the number of active guarded frames
+        if sound:
+            for body in F.bodies.values():
+                if not any(c.callee in dec for c in body.calls()):
+                    continue
+                if not _balanced(body, g, dec):
+                    sound = False
+        if sound:
+            out[g] = (fld[1], limit, dec)
+    return out
+
+
+def _is_minus_one(ex, fld):
+    """field.saturating_sub(1) / field - 1 / (field - 1 with overflow check).0"""
+    ex = strip_expr(ex)
+    if ex[0] == "call" and ex[1].split("::")[-1] in ("saturating_sub", "wrapping_sub"):
+        a, b = strip_expr(ex[2][0]), strip_expr(ex[2][1])
+        return _field_of(a, "program::Program") == fld and b[0] == "const" and b[1].get("int") == 1
+    if ex[0] == "binop" and ex[1] in ("Sub", "SubWithOverflow"):
+        a, b = strip_expr(ex[2]), strip_expr(ex[3])
+        return _field_of(a, "program::Program") == fld and b[0] == "const" and b[1].get("int") == 1
+    if ex[0] == "place" and isinstance(ex[1], tuple):
+        return _is_minus_one(ex[1], fld)
+    return False
+
+
+def _balanced(body, enter, leaves):
+    from lib import on_ok_arm
+    try:
+        paths = body.paths(limit=20000)
+    except OverflowError:
+        return False
+    for p in paths:
+        bal = 0
+        for idx, b in enumerate(p):
+            c = body.call_at(b)
+            if c is None:
+                continue
+            if c.callee == enter:
+                # counts only if the path continues on the success arm
+                nxt = p[idx + 1:] if idx + 1 < len(p) else []
+                if any(on_ok_arm(body, c, x) for x in nxt[:6]):
+                    bal += 1
+            elif c.callee in leaves:
+                bal -= 1
+                if bal < 0:
+                    return False
+    return True
+
+
+def aggregates_of(body, adt_suffix):
+    from lib import aggregates
+    return list(aggregates(body, adt_suffix))
+
+
 def recursion_rule(ck, F, G, seen, P):
     """A4: every cycle of the call graph (within the reachable set) must pass a depth-guarded call site."""
     import vetted
+    from lib import on_ok_arm
     guards = depth_guard_fns(F)
+    counters = counter_guard_fns(F)
     ck.note("%s.depth_guard_functions" % P, sorted(guards))
+    ck.note("%s.depth_counter_functions" % P, {g: {"field": v[0], "limit": v[1], "decremented_in": sorted(v[2])} for g, v in counters.items()})
+
+    def counter_guarded(body, c):
+        """the call is on the success arm of an `enter` call and the counter is not given back before it"""
+        for gc in body.calls():
+            if gc.callee not in counters or not on_ok_arm(body, gc, c.bb):
+                continue
+            leaves = counters[gc.callee][2]
+            early = [l for l in body.calls() if l.callee in leaves and l.bb != c.bb and gc.target is not None and
+                     body.reaches(gc.target, l.bb) and body.reaches(l.bb, c.bb)]
+            if not early:
+                return True
+        return False
     sccs = G.sccs(set(seen))
     n_cycles = 0
     for comp in sccs:
@@ -872,7 +1045,8 @@ def recursion_rule(ck, F, G, seen, P):
                     continue
                 n = ordinal.get(v, 0) + 1
                 ordinal[v] = n
-                g = any(vetted.on_continue_arm_of(body, gf.split("::", 1)[-1] if False else gf, c.bb) for gf in guards)
+                g = any(vetted.on_continue_arm_of(body, gf.split("::", 1)[-1] if False else gf, c.bb) for gf in guards) \
+                    or counter_guarded(body, c)
                 if not g:
                     unguarded.setdefault(u, []).append((v, n, c))
             # address-taken / closure / callback edges have no call site: treat as unguarded
